@@ -24,7 +24,7 @@ theorem CamOk.micro : ∀ rt, MReach rt → ∀ s, CamOk s (getS rt s) rt.client
   · intro s a ha rt _ hg h; exact all_setS_cl CamOk rt s _ (CamOk.snk s rt.client a ha _ hg (h s)) h
   · intro a ha rt hr hg h
     exact client_families CamOk.Kept CamOk.client_base CamOk.client_mon CamOk.client_cfg CamOk.client_start CamOk.client_err
-      CamOk.client_stop CamOk.client_acc CamOk.client_flush a ha rt (TInvAll.micro rt hr) hg h
+      CamOk.client_stop CamOk.client_acc (fun s r _ => CamOk.client_flush s r) a ha rt (TInvAll.micro rt hr) hg h
 
 theorem StoOk.micro : ∀ rt, MReach rt → ∀ s, StoOk (getS rt s) := by
   apply MReach.inv (fun rt => ∀ s, StoOk (getS rt s))
